@@ -145,6 +145,9 @@ struct Harness {
     virtual std::string run(const Program &p, Stats &st) = 0;
     virtual std::string selftest() { return ref::selftest(); }
     virtual void configure(const std::map<std::string, std::string> &) {}
+    // a property may be served by harnesses with different case languages (API programs / big-request cases):
+    // a replay file written by one is skipped by the others
+    virtual bool understands(const Program &p) { return !p.empty() && p[0].name != "big"; }
 };
 
 static std::string g_current_case;   // serialisation of the case being executed (for crash capture)
@@ -199,6 +202,7 @@ static inline int skv_main(int argc, char **argv, Harness &h) {
         for (auto &part : parts) {
             Program p = parse(part);
             if (p.empty()) continue;
+            if (!h.understands(p)) { printf("SKV-PASS (case written by another harness of this property: skipped)\n"); return 0; }
             ++ran;
             g_current_case = ser(p);
             std::string r = h.run(p, st);
